@@ -183,6 +183,14 @@ def _step(s, op, ctx):
                         bd["inter"] = spi.RigidBodyFlowInteraction(rigid_body=body, forcing_grid_cls=spi.SphereForcingGrid,
                                                                    num_forcing_points_along_equator=8, **kw)
                     bd["spacing"] = float(bd["inter"].forcing_grid.get_maximum_lagrangian_grid_spacing())
+                    # material offsets of the markers, read ONCE from the freshly constructed grid (C09 checks that geometry);
+                    # from here on marker kinematics are recomputed from the body state, independently of the interaction
+                    g0 = bd["inter"].forcing_grid
+                    g0.compute_lag_grid_position_field()
+                    x0 = np.zeros((3, g0.num_lag_nodes))
+                    x0[:dim] = g0.position_field
+                    rel = x0 - body.position_collection[:, :1]
+                    bd["offsets"] = rel.copy() if dim == 3 else body.director_collection[:, :, 0] @ rel
             n = bd["inter"].forcing_grid.num_lag_nodes
             bd["n"] = n
             bd["I"] = np.zeros((dim, n))
@@ -218,6 +226,22 @@ def _step(s, op, ctx):
         # marker kinematics independently: harness grid = its source; rigid = C09 kinematics via the grid itself (checked in C09)
         X = g.position_field.copy()
         Xdot = g.velocity_field.copy()
+        if bd["body"] is not None:
+            b = bd["body"]
+            Q = b.director_collection[:, :, 0]
+            # 2-D cylinder: body-fixed markers x = X + Q^T s; sphere: markers keep their lab-frame offsets (C09)
+            r = (Q.T @ bd["offsets"]) if dim == 2 else bd["offsets"]
+            Xk = (b.position_collection[:, :1] + r)[:dim]
+            om_lab = Q.T @ b.omega_collection[:, 0]
+            Vk = (b.velocity_collection[:, :1] + np.cross(om_lab, r.T).T)[:dim]
+            e64 = float(np.finfo(np.float64).eps)
+            tolx = 256 * e64 * (float(np.max(np.abs(Xk))) + 1.0)
+            tolv = 256 * e64 * (float(np.max(np.abs(Vk))) + float(np.linalg.norm(om_lab)) * float(np.max(np.abs(r))) + 1.0)
+            if float(np.max(np.abs(X - Xk))) > tolx or float(np.max(np.abs(Xdot - Vk))) > tolv:
+                raise Violation(f"body {bi}: the marker positions/velocities the interaction evaluated with are not those of the body state at "
+                                f"evaluation time (max position deviation {float(np.max(np.abs(X - Xk))):.3e}, velocity deviation "
+                                f"{float(np.max(np.abs(Xdot - Vk))):.3e}): the mismatch is not 'interpolated flow velocity minus body velocity'")
+            X, Xdot = Xk, Vk
         if X.min() < 2 * DX or max(X[c].max() - (s["shape"][dim - 1 - c] - 2) * DX for c in range(dim)) > 0:
             raise Violation("harness error: marker left the admissible interior", key="__harness__")
         u64 = s["u"].astype(np.float64)
